@@ -725,13 +725,62 @@ def _is_hex_setup(st, self_obj, vals):
     st.ghost["c18_verifying_is_hex"] = True
 
 
-@contract(DC + "_is_hex", property="C18", replayable=False)
+class SMatch(ModelObj):
+    """What a successful Pattern.match returns, as far as it is modelled: an object that is not None and is truthy."""
+
+    def __repr__(self):
+        return "SMatch()"
+
+
+def regex_call_real(ip, st, f, args, kwargs):
+    """<compiled pattern>.match / fullmatch / search(<modelled str>) and re.match / fullmatch / search(<constant
+    pattern>, <modelled str>) for the pattern family of pyvc/remodel.py (one quantified character set between
+    optional anchors; `$` also holds before a trailing newline): None, or a match object, by the model's formula
+    over the str's length and code points.  Anything outside the family stays Unsupported."""
+    import re as _re
+
+    from pyvc import remodel
+
+    name = getattr(f, "__name__", "")
+    owner = getattr(f, "__self__", None)
+    if name not in ("match", "fullmatch", "search") or kwargs:
+        return NotImplemented
+    if isinstance(owner, _re.Pattern) and len(args) == 1:
+        pat, text = owner, args[0]
+    elif f in (_re.match, _re.fullmatch, _re.search) and len(args) == 2 and isinstance(args[0], (str, _re.Pattern)):
+        pat, text = _re.compile(args[0]), args[1]
+    else:
+        return NotImplemented
+    text = st.force(text)
+    if not isinstance(text, CStr):
+        return NotImplemented
+    shape = remodel.analyse(pat)
+
+    def all_below(j, pred):
+        j = _simp(j)
+        if _isint(j):
+            return both(True, *[pred(text.at(i)) for i in range(j)])
+        return forall(0, j, lambda i: pred(text.at(i)))
+
+    found = remodel.match_exists(shape, name, text.n, text.at, all_below)
+    return SMatch() if st.branch(found) else None
+
+
+def _xcheck_regex():
+    from pyvc import remodel
+
+    return remodel.xcheck()
+
+
+@contract(DC + "_is_hex", property="C18")  # replayable: a str in, a bool out; the clause evaluates natively
 class is_hex_text:
     params = dict(text=Str())
     result = Bool
     raises = ()
     setup = staticmethod(_is_hex_setup)
     pure_spec = staticmethod(_is_hex_spec)
+    call_real = staticmethod(regex_call_real)  # (only reached if the body uses `re`: see pyvc/remodel.py)
+    static_checks = [_xcheck_regex]
 
     def ensures(a, result):
         yield "true-exactly-for-ascii-hex-digits-only", result == hex_all(a.text)
